@@ -15,12 +15,12 @@ package main
 // Only paths whose every undecided branch is an oracle answer are judged.
 
 import (
-	"runtime"
-	"sync"
-	"os"
 	"fmt"
+	"os"
+	"runtime"
 	"sort"
 	"strings"
+	"sync"
 
 	"golang.org/x/tools/go/ssa"
 )
@@ -34,9 +34,9 @@ type composeCase struct {
 type composeStep func(it *Interp, st *State, ctx interface{}) (fn string, args []AV, ok bool)
 
 type composeSpec struct {
-	tag     string                              // distinguishes two specs with the same entry in construct names
-	entry   string                              // ShortKey of the composing function
-	desc    string                              // the stated combination
+	tag     string                                       // distinguishes two specs with the same entry in construct names
+	entry   string                                       // ShortKey of the composing function
+	desc    string                                       // the stated combination
 	oracles map[string]func(fn *ssa.Function) oracleFunc // ShortKey of callee -> outcomes
 	cases   []composeCase
 	judge   func(it *Interp, ctx interface{}, st *State) string // "" = the path agrees with the stated combination
@@ -490,7 +490,7 @@ func planarContainsSpecs(thorough bool) []composeSpec {
 			entry: "planar.RingContains",
 			desc:  "true iff some edge of the implicitly closed ring reports the point on it, else the parity of the crossings over every edge (each consecutive pair and the closing pair last-first, each consulted exactly once)",
 			oracles: map[string]func(*ssa.Function) oracleFunc{
-				"planar.rayIntersect": oracleBools(2),
+				"planar.rayIntersect":  oracleBools(2),
 				"orb.(Bound).Contains": oracleBools(1),
 				"orb.(Ring).Bound":     oracleTop,
 			},
